@@ -199,6 +199,9 @@ type c20W struct {
 	suffix  string
 	profile string // "" (= openid) | openid | fapi1 | fapi2
 	flows   []c20Flow
+	// logs of the short-lived goroutines of flowURIBurst (appended under mu after they have finished)
+	extraLogs []*c20glog
+	burstSeq  int
 }
 
 // the outer parameters that go with a request_uri
@@ -1000,6 +1003,7 @@ var c20Flows = []c20Flow{
 	{"dcr-own", 3, (*c20G).flowRegisterOwn},
 	{"dcr-churn", 5, (*c20G).flowDCRChurn},
 	{"dcr-shared", 4, (*c20G).flowDCRShared},
+	{"request_uri-burst", 3, (*c20G).flowURIBurst},
 }
 
 func (g *c20G) run() {
@@ -1183,6 +1187,10 @@ func c20Work(ctx *RunCtx) {
 		for _, g := range gs {
 			logs = append(logs, g.log)
 		}
+		w.mu.Lock()
+		logs = append(logs, w.extraLogs...)
+		w.extraLogs = nil
+		w.mu.Unlock()
 		ctx.Meta.Dist[fmt.Sprintf("level/%02d:goroutines=%d:provider=%s", li, len(gs), w.name)] = collect(logs)
 	}
 	for li, lv := range levels {
